@@ -120,6 +120,35 @@ pub fn near_semicomplete(rng: &mut Rng, order: usize, keep_size: bool) -> Dg {
     d
 }
 
+/// A tournament in which `k` pairs at distance `d` were emptied and `k` other pairs at the same distance
+/// doubled: the arc count is still n(n-1)/2 (so a size shortcut cannot decide) and every defect lies in
+/// one residue class of the column index - the blind spot of a block-wise scan that masks a class.
+pub fn tournament_with_paired_defects(rng: &mut Rng, order: usize, d: usize, k: usize) -> Dg {
+    let mut g = random_tournament(rng, order);
+    if d == 0 || d >= order {
+        return g;
+    }
+    let mut used = BTreeSet::new();
+    for i in 0..2 * k {
+        let mut u = rng.below(order - d);
+        let mut guard = 0;
+        while used.contains(&u) && guard < 64 {
+            u = rng.below(order - d);
+            guard += 1;
+        }
+        let _ = used.insert(u);
+        let (a, b) = (u, u + d);
+        if i % 2 == 0 {
+            let _ = g.a.remove(&(a, b));
+            let _ = g.a.remove(&(b, a));
+        } else {
+            let _ = g.a.insert((a, b));
+            let _ = g.a.insert((b, a));
+        }
+    }
+    g
+}
+
 /// `k` distinct vertex ids. Styles: contiguous 0..k; contiguous with holes;
 /// sparse ids from a wide range; shifted block (no vertex 0).
 pub fn random_vertex_set(rng: &mut Rng, k: usize, max_id: usize) -> BTreeSet<usize> {
